@@ -798,10 +798,25 @@ impl<'a> Tr<'a> {
                 guard_pre = go.pre;
                 conds.push(go.term);
             }
-            if !guard_pre.is_empty() {
-                return self.err(sp, "match guard with effects (checked arithmetic, indexing or calls)");
-            }
             let body = self.arm_body(row, arms, cx, sp)?;
+            if !guard_pre.is_empty() {
+                // the guard has effects (a call, checked arithmetic): evaluate it inside the arm
+                let rest = self.emit_rows(routs, j + 1, arms, cx, sp)?;
+                lines.push(format!("  | {} => do", ls.join(", ")));
+                lines.extend(ind(guard_pre, 6));
+                lines.push(format!("      if {} then do", conds.join(" && ")));
+                lines.extend(ind(body, 10));
+                lines.push("      else".to_string());
+                lines.extend(ind(rest.clone(), 8));
+                matrix.push(ts);
+                if useful(&matrix, &vec![PTree::Wild; ncols]) {
+                    let wild = vec!["_"; ncols].join(", ");
+                    lines.push(format!("  | {} =>", wild));
+                    lines.extend(ind(rest, 6));
+                }
+                closed = true;
+                break;
+            }
             if conds.is_empty() {
                 lines.push(format!("  | {} => do", ls.join(", ")));
                 lines.extend(ind(body, 6));
